@@ -108,9 +108,29 @@ func classify(err error) int64 {
 func play(evs []event, st *store) []outc {
 	gens := map[int64]*uuid.SeqIDGen{}
 	outs := make([]outc, len(evs))
+	w := NewWatcher(nextFrame)
+	defer func() { w.Close() }()
+	// watched runs f on the worker goroutine; a call that is blocked for good (watch.go) is
+	// outcome kind 6 and costs the worker
+	dead := map[*uuid.SeqIDGen]bool{} // generators whose mutex is locked for good
+	var curGen *uuid.SeqIDGen
+	watched := func(o *outc, f func()) {
+		if dead[curGen] {
+			// established by an earlier call of this history: the mutex is held and nobody
+			// who could release it exists; do not park yet another goroutine on it
+			o.kind = 6
+			return
+		}
+		if w.Call(f) {
+			o.kind = 6
+			dead[curGen] = true
+			w = NewWatcher(nextFrame)
+		}
+	}
 	for i := range evs {
 		e := &evs[i]
 		st.pending, st.asked = &e.a, false
+		curGen = gens[e.g]
 		var o outc
 		switch e.op {
 		case 0:
@@ -119,26 +139,30 @@ func play(evs []event, st *store) []outc {
 			delete(gens, e.g)
 		case 1:
 			if g := gens[e.g]; g != nil {
-				var err error
-				if p, _ := Catch(func() { err = g.Init() }); p {
-					o.kind = 5
-				} else if err == nil {
-					o.kind = 1
-				} else {
-					o.kind = classify(err)
-				}
+				watched(&o, func() {
+					var err error
+					if p, _ := Catch(func() { err = g.Init() }); p {
+						o.kind = 5
+					} else if err == nil {
+						o.kind = 1
+					} else {
+						o.kind = classify(err)
+					}
+				})
 			}
 		case 2:
 			if g := gens[e.g]; g != nil {
-				var id int64
-				var err error
-				if p, _ := Catch(func() { id, err = g.Next() }); p {
-					o.kind = 5
-				} else if err == nil {
-					o.kind, o.value = 2, id
-				} else {
-					o.kind = classify(err)
-				}
+				watched(&o, func() {
+					var id int64
+					var err error
+					if p, _ := Catch(func() { id, err = g.Next() }); p {
+						o.kind = 5
+					} else if err == nil {
+						o.kind, o.value = 2, id
+					} else {
+						o.kind = classify(err)
+					}
+				})
 			}
 		}
 		o.asked = st.asked
@@ -154,10 +178,25 @@ func play(evs []event, st *store) []outc {
 func playAPI(evs []event, st *store) []outc {
 	outs := make([]outc, len(evs))
 	cur := int64(-1)
+	w := NewWatcher(nextFrame)
+	defer func() { w.Close() }()
+	deadGen := int64(-2) // index of the global generator found blocked for good
+	watched := func(o *outc, f func()) {
+		if w.Call(f) {
+			o.kind = 6
+			deadGen = cur
+			w = NewWatcher(nextFrame)
+		}
+	}
 	for i := range evs {
 		e := &evs[i]
 		st.pending, st.asked = &e.a, false
 		var o outc
+		if e.op == 2 && e.g == cur && cur == deadGen {
+			o.kind = 6
+			outs[i] = o
+			continue
+		}
 		switch e.op {
 		case 1:
 			var err error
@@ -170,14 +209,16 @@ func playAPI(evs []event, st *store) []outc {
 			}
 		case 2:
 			if e.g == cur {
-				var id int64
-				if p, v := Catch(func() { id = uuid.NextID() }); !p {
-					o.kind, o.value = 2, id
-				} else if msg, ok := v.(string); ok && (strings.Contains(msg, errBefore.Error()) || strings.Contains(msg, errAfter.Error())) {
-					o.kind = 3
-				} else {
-					o.kind = 5
-				}
+				watched(&o, func() {
+					var id int64
+					if p, v := Catch(func() { id = uuid.NextID() }); !p {
+						o.kind, o.value = 2, id
+					} else if msg, ok := v.(string); ok && (strings.Contains(msg, errBefore.Error()) || strings.Contains(msg, errAfter.Error())) {
+						o.kind = 3
+					} else {
+						o.kind = 5
+					}
+				})
 			}
 		}
 		o.asked = st.asked
@@ -253,6 +294,11 @@ func goCheck(evs []event, outs []outc) (string, bool) {
 	ids := map[int64]bool{}
 	leased := map[int64]bool{}
 	var step0 int64
+	for _, o := range outs {
+		if o.kind == 6 {
+			return "blocked", false // a call never returned, whatever the premise
+		}
+	}
 	for i, e := range evs {
 		o := outs[i]
 		switch e.op {
